@@ -219,6 +219,9 @@ pub struct E2eCase {
     /// 0 the caller is alive; 1 it has exited and is not reaped yet (a zombie: no exe link, empty command line); 2 its pid is gone
     #[serde(default)]
     pub caller_state: u8,
+    /// that many further connections send a complete request and hang up 0-600 microseconds later, without reading
+    #[serde(default)]
+    pub hangups: u16,
 }
 
 fn tchar_method() -> impl Strategy<Value = String> {
@@ -264,12 +267,12 @@ pub fn e2e_strategy() -> impl Strategy<Value = E2eCase> {
         any::<bool>(),
         0u8..4,
         any::<bool>(),
-        (prop::collection::vec(hostile_req(), 1..4), prop_oneof![6 => Just(0u8), 2 => Just(1u8), 1 => Just(2u8)]),
+        (prop::collection::vec(hostile_req(), 1..4), prop_oneof![6 => Just(0u8), 2 => Just(1u8), 1 => Just(2u8)], prop_oneof![27 => Just(0u16), 1 => Just(40u16), 1 => Just(160u16), 1 => Just(400u16)]),
     )
-        .prop_map(|(exe_name, wide, wide_count, shift, uid, is_root, policy, key, (requests, caller_state))| E2eCase { exe_name, wide, wide_count, shift, uid, is_root, policy, key, requests, caller_state })
+        .prop_map(|(exe_name, wide, wide_count, shift, uid, is_root, policy, key, (requests, caller_state, hangups))| E2eCase { exe_name, wide, wide_count, shift, uid, is_root, policy, key, requests, caller_state, hangups })
 }
 
-pub const RULE_E2E: &str = "part B: through the real listener with a key latched in half of the cases: (i) requests that are syntactically valid by RFC 9112 - extension methods, origin/absolute/asterisk targets, paths ending in arbitrary %XX escapes (any byte value, e.g. %FF, %80, a lone %C3, %00), targets of 1-120 KB, HTTP/1.0, header values with obs-text bytes 0x80-0xFF and tabs, values of 1-9 KB, one header repeated 2-150 times (around hyper's 100-header limit), bodies as Content-Length / chunked / chunked with extensions and a trailer / Expect: 100-continue; (ii) callers = freshly exec'ed helper processes whose executable name and argv contain long runs of 2/3/4-byte characters (300-6000 of them, shifted by 0-7 ASCII bytes) so that the connection-summary JSON and the 'Block unauthorized request' text cross bytes 4096 inside a character, users with multi-byte names from the generated passwd; in a third of the cases the caller has exited by the time its connection is accepted (not yet reaped: no exe link and an empty command line; or its pid is gone); IMDS under allow / enforce-deny / audit-deny rule sets and WireServer. oracle: the process-wide panic hook stays empty; every request receives a status line; after each case a canary request on a fresh attributed connection is relayed (200) and, every 25th case, status.json written by the real status task has advanced. non-trivial: a caller with >= 300 wide characters, or a header value with an obs-text byte, or a repeated header >= 99 times, or a target >= 60 KB; distinct by hash of the case.";
+pub const RULE_E2E: &str = "part B: through the real listener with a key latched in half of the cases: (i) requests that are syntactically valid by RFC 9112 - extension methods, origin/absolute/asterisk targets, paths ending in arbitrary %XX escapes (any byte value, e.g. %FF, %80, a lone %C3, %00), targets of 1-120 KB, HTTP/1.0, header values with obs-text bytes 0x80-0xFF and tabs, values of 1-9 KB, one header repeated 2-150 times (around hyper's 100-header limit), bodies as Content-Length / chunked / chunked with extensions and a trailer / Expect: 100-continue; (ii) callers = freshly exec'ed helper processes whose executable name and argv contain long runs of 2/3/4-byte characters (300-6000 of them, shifted by 0-7 ASCII bytes) so that the connection-summary JSON and the 'Block unauthorized request' text cross bytes 4096 inside a character, users with multi-byte names from the generated passwd; in a third of the cases the caller has exited by the time its connection is accepted (not yet reaped: no exe link and an empty command line; or its pid is gone); IMDS under allow / enforce-deny / audit-deny rule sets and WireServer; in a tenth of the cases 40-400 further keep-alive connections complete one exchange, send a second complete request and are reset 0-600 microseconds later, before its response. oracle: the process-wide panic hook stays empty; every request receives a status line; after each case a canary request on a fresh attributed connection is relayed (200) and, every 25th case, status.json written by the real status task has advanced. non-trivial: a caller with >= 300 wide characters, or a header value with an obs-text byte, or a repeated header >= 99 times, or a target >= 60 KB; distinct by hash of the case.";
 
 fn deny_all(mode: &str) -> GDoc {
     GDoc {
@@ -452,6 +455,50 @@ pub fn eval_e2e(rig: &Rig, st: &mut E2eState, case: &E2eCase, stats: &mut Stats)
                 format!("request {}: {} (send result {:?}); head: {:?}", i, format!("{:?}", e).chars().take(200).collect::<String>(), send.err().map(|e| e.to_string()), String::from_utf8_lossy(&wire[..wire.len().min(300)])),
             );
         }
+    }
+    // ---- clients that hang up while their request is being handled ----
+    if case.hangups > 0 {
+        stats.class("clients-hanging-up-right-after-their-request");
+        let per = (case.hangups as usize + 3) / 4;
+        let ports: Vec<u16> = std::thread::scope(|sc| {
+            let hs: Vec<_> = (0..4usize)
+                .map(|t| {
+                    sc.spawn(move || {
+                        let mut ports = Vec::new();
+                        let wire = crate::rawhttp::request_head("GET", "/metadata/instance?api-version=2021-02-01", &[("Host".into(), b"h".to_vec()), ("Metadata".into(), b"true".to_vec())]);
+                        for i in 0..per {
+                            // source ports from a range of their own (below the kernel's ephemeral range), each used once in a
+                            // long while: a dead connection still queued at the listener must never share its port with a later one
+                            static NEXT: std::sync::atomic::AtomicU32 = std::sync::atomic::AtomicU32::new(0);
+                            let port = 12000 + (NEXT.fetch_add(1, std::sync::atomic::Ordering::Relaxed) % 18000) as u16;
+                            if let Ok(mut c) = rig.open(Some(entry), port) {
+                                ports.push(c.port);
+                                // an established keep-alive connection (one full exchange), then a complete request and the hang-up:
+                                // the handler of the second request is running when the reset arrives
+                                let _ = c.send(&wire);
+                                let _ = c.read("GET", Duration::from_secs(10));
+                                let _ = c.send(&wire);
+                                let us = ((i * 37 + t * 151) % 600) as u64;
+                                if us > 0 {
+                                    std::thread::sleep(Duration::from_micros(us));
+                                }
+                                crate::rawhttp::close_abortive(c.stream);
+                            }
+                        }
+                        ports
+                    })
+                })
+                .collect();
+            hs.into_iter().flat_map(|h| h.join().unwrap_or_default()).collect()
+        });
+        // the listener still has these (dead) connections in its backlog; a later connection from one of their source
+        // ports must not be opened before the listener has consumed their records, or it would lose its own record to them
+        let t0 = std::time::Instant::now();
+        while ports.iter().any(|p| verif_hooks::contains(*p)) && t0.elapsed() < Duration::from_millis(300) {
+            std::thread::sleep(Duration::from_millis(2));
+        }
+        std::thread::sleep(Duration::from_millis(20));
+        let _ = rig.mock.take_requests();
     }
     // ---- canary ----
     rig.set_rules(None, None, None);
